@@ -48,7 +48,8 @@ def gen_case(seed, i):
         # (a family stream of length n is a prefix of the stream of length m > n)
         extra = []
         for e in world.entries:
-            if e["t"] == "f" and not e["c"].get("flips") and rng.random() < 0.4 and len(extra) < 4:
+            if e["t"] == "f" and not e["c"].get("flips") and rng.random() < 0.4 and len(extra) < 4 \
+                    and len(e["p"].rsplit("/", 1)[-1]) < 240:
                 c2 = dict(e["c"]); c2["len"] = e["c"]["len"] + rng.choice([1, 3, 50])
                 extra.append({"t": "f", "p": e["p"] + ".longer%d" % len(extra), "c": c2, "mt": e.get("mt")})
         world.entries += extra
